@@ -159,6 +159,11 @@ OLD_COMBOS = [("block", "other", None),
               ("iterm2", "wezterm", "lines"), ("iterm2", "wezterm", "whole"),
               ("iterm2", "konsole", "lines"), ("iterm2", "konsole", "whole")]
 
+# kitty versions around the gate between the two frame-removal mechanisms of an animation (`_clear_frame`
+# by z-index up to 0.25.0, `blend=False` afterwards): every version must get one of them
+KITTY_GATE = [("kitty", "kitty-0.25.1", "lines"), ("kitty", "kitty-0.25.1", "whole"),
+              ("kitty", "kitty-0.25.2", "lines"), ("kitty", "kitty-0.26", "lines"), ("kitty", "kitty-0.26", "whole")]
+
 
 def new_paddings(quick, w, h):
     pads = []
@@ -261,9 +266,11 @@ def build_cases(tier):
     if not quick:
         anims_old = [(1, 1, False), (2, 1, False), (2, 1, True), (2, 2, True), (3, 2, False), (3, 1, True),
                      (3, 2, True)]
-    for (style, ident, method), size, term in itertools.product(OLD_COMBOS, sizes, terms):
+    for (style, ident, method), size, term in itertools.product(OLD_COMBOS + KITTY_GATE, sizes, terms):
         for fmt in old_fmts(quick, *size):
             for frames, repeat, cached in anims_old:
+                if ident in ("kitty-0.25.1", "kitty-0.25.2", "kitty-0.26") and (frames == 1 or quick and fmt[1] == 0):
+                    continue       # the version gate only concerns animations
                 if quick and frames == 3 and (method == "whole" or fmt[1] == 0):
                     continue
                 for row0 in range(term[1]):
@@ -339,7 +346,7 @@ def run(ctx):
                                                      V="new API validation table", O="old API placement",
                                                      W="old API validation table"),
                         terminals=sorted({tuple(c["term"]) for c in cases}),
-                        old_api_combos=len(OLD_COMBOS))
+                        old_api_combos=len(OLD_COMBOS) + len(KITTY_GATE))
     ctx.assumptions += ["vterm (vlib/vterm.py, DESIGN appendix A) is the terminal, the tty applies ONLCR",
                         "a frame boundary is the sleep that follows a frame (virtual clock)",
                         "the frame 'drawn alone' is the unpadded str()/format() render of that frame executed on a "
